@@ -904,6 +904,10 @@ def emit_fn(out, u, fs, rules_used):
                 txt = c.text.rstrip()
                 if not txt.rstrip().endswith(","): txt += ","
                 out.add(indent + "    " + txt.replace("\n", "\n" + indent), ("clause", u.name, fs.name, kind, c.tags, c.src_line, cid))
+    if fs.opts.get("probe"):
+        emit_clause_group([c for c in fs.clauses if c.kind == "requires"] + [Clause("ensures", ["PROBE.%s" % fs.name], "false", 0)], ("requires", "ensures"), "    ")
+        out.add("{ probe_any() }", ("glue",))
+        return
     emit_clause_group(fs.clauses, ("requires", "ensures", "returns", "decreases"), "    ")
     if fs.opts.get("contract_only") or fs.opts.get("trusted"):
         out.add("{ unimplemented!() }", ("glue",))
@@ -1157,7 +1161,9 @@ def emit_struct(out, relpath, kind, name, rules_used):
     rules_used.add("R7")
     out.add_repo(t, relpath, it.line(src))
 
-def assemble(unit_path):
+def assemble(unit_path, probe=False):
+    """probe=True: vacuity probe unit - every function of the unit keeps its signature and `requires`, gets `ensures false`
+    and the body `{ probe_any() }`; Verus must FAIL each of them (a contradictory precondition would verify)"""
     u = parse_unit(unit_path)
     out = Out()
     rules_used = set()
@@ -1171,7 +1177,7 @@ def assemble(unit_path):
             u.speclib.append(f)
             p = os.path.join(VERIF, "speclib", f)
             txt = open(p).read().rstrip("\n")
-            assume = not (u.verify_speclib or (len(e) > 2 and e[2]))
+            assume = probe or not (u.verify_speclib or (len(e) > 2 and e[2]))
             for k, l in enumerate(txt.split("\n")):
                 if assume and re.match(r"\s*pub proof fn ", l):
                     # lemma statement assumed in this unit; its proof is checked in the unit `speclib`
@@ -1197,6 +1203,8 @@ def assemble(unit_path):
             if hdr:
                 hdr = tidy_header(hdr)
                 out.add(hdr + " {", ("glue",))
+            if probe and not (fs.opts.get("contract_only") or fs.opts.get("trusted")):
+                fs.opts["probe"] = True
             emit_fn(out, u, fs, rules_used)
             if hdr:
                 out.add("}", ("glue",))
